@@ -11,6 +11,7 @@ CONSTANTS
   MaxChanges = 3
   MaxT = 3
   MaxOps = 14
+  MaxEvents = 1
   MaxFails = 1
 VIEW view
 INVARIANTS Refines NoLostUpdate
